@@ -45,12 +45,12 @@ let () =
       | "J" :: mode :: name :: lock :: f2 :: f3 :: seg :: k :: z :: rc :: hex :: ops ->
         let m = if mode = "64" then X86.M64 else X86.M32 in
         let dc = { X86.d_lock = b lock; d_f2 = b f2; d_f3 = b f3; d_seg = zi seg; d_k = zi k; d_z = b z; d_rc = zi rc } in
-        let (v, cands) = X86.judge X86.bucket X86.row_of m (zi name) (parse_ops ops) dc (bytes_of_hex hex) in
-        let others = X86.other_names X86.bucket X86.row_of m (zi name) (bytes_of_hex hex) in
+        let (v, cands) = X86.judge X86.bucket X86.wbucket X86.row_of m (zi name) (parse_ops ops) dc (bytes_of_hex hex) in
+        let others = X86.other_names X86.bucket X86.wbucket X86.row_of m (zi name) (bytes_of_hex hex) in
         Printf.printf "%s | %s | %s\n" (string_of_cz v) (String.concat ";" (List.map s_cand cands)) (String.concat "," (List.map string_of_cz others))
       | "D" :: mode :: hex :: _ ->
         let m = if mode = "64" then X86.M64 else X86.M32 in
-        let cands = X86.denote X86.bucket m (bytes_of_hex hex) in
+        let cands = X86.denote2 X86.bucket X86.wbucket m (bytes_of_hex hex) in
         Printf.printf "D | %s\n" (String.concat ";" (List.map s_cand cands))
       | [] -> ()
       | _ -> print_endline "BAD"
